@@ -32,7 +32,7 @@ GLOBAL_ASSUMPTIONS = [
 # for functions the verifier could not decide (contract no longer fits the code, unsupported construct, solver timeout) and
 # in the thorough tier as an extra exploration; what they cover is reported as *bounded*, never as proved.
 BOUNDED = [
-    dict(prefix=('ml_pipeline_engine/dag_builders/annotation/builder.py::',), script='bounded/builder.py', props=('C09', 'C15', 'C16', 'C17')),
+    dict(prefix=('ml_pipeline_engine/dag_builders/annotation/builder.py::',), script='bounded/builder.py', props=('C09', 'C15', 'C16', 'C17', 'C03', 'C05', 'C10', 'C11')),
     dict(prefix=('ml_pipeline_engine/artifact_store/',), script='bounded/fsstore.py', props=('C18',)),
     dict(prefix=('ml_pipeline_viewer/',), script='bounded/viewer.py', props=('C20',)),
     dict(prefix=('ml_pipeline_engine/dag/manager.py::', 'ml_pipeline_engine/dag/storage.py::', 'ml_pipeline_engine/dag/dag.py::',
